@@ -547,6 +547,34 @@ def r6_12(ctx):
         ctx.check(n_cfg >= 1, "config-result", f.where(), "a result with a non-empty configuration exists")
 
 
+def r6_14(ctx):
+    """title: whatever is appended to the pending title paragraph is committed to the line parser before the next token is read (a fence line is
+    never a Line token, so a paragraph that is only committed when a later non-title line arrives is lost when the fence follows directly)"""
+    prog = ctx.prog
+    p = prog.fn("MarkdownParser::parse") if prog.find_fns("MarkdownParser::parse") else prog.impl_fn("MarkdownParser", "Parser", "parse")
+    o = Origins(p)
+    back = p.back_edges()
+    sets = [bb for bb, t in p.calls() if (callee_name(t) or "").endswith("LineParser::set_testcase_title")]
+    if not sets:
+        raise AnchorError("MarkdownParser::parse never calls set_testcase_title")
+    # pushes onto the title paragraph: Vec<String>::push whose value derives from extract_title
+    pushes = [bb for bb, t in p.calls() if mname(t) == "Vec::push" and any(n.kind == "call" and n.a.endswith("extract_title") for n in o.operand(t["args"][1]).walk())]
+    ctx.check(bool(pushes), "title-pushes", p.where(), "title lines (extract_title) are collected into the pending paragraph (%d site(s))" % len(pushes),
+              "no push of an extract_title result found")
+    tails = {b for b, h in back}
+    for k, pb in enumerate(pushes):
+        esc = set(p.reachable(p.blocks[pb]["term"]["target"], removed_blocks=sets))
+        leaks = sorted((esc & tails) | (esc & set(p.return_blocks())))
+        ctx.check(not leaks, "title-committed#%d" % k, p.loc(pb),
+                  "after a title line is appended the joined paragraph is handed to set_testcase_title before the next token is read",
+                  "a title line can be appended without the paragraph being committed in the same iteration (blocks %s reach the next token first): a heading or "
+                  "paragraph directly followed by the opening fence is lost, the test gets a stale or empty title" % leaks)
+    for sb in sets:
+        arg = o.operand(p.blocks[sb]["term"]["args"][1])
+        ctx.check(any(n.kind == "call" and method_name(n.a).endswith("join") for n in arg.walk()), "title-joined", p.loc(sb),
+                  "the committed title is the joined paragraph", "set_testcase_title receives %s" % arg.show()[:80])
+
+
 def run(ctx):
     ctx.run_rule("R6.1", "MarkdownIterator::next: once a line is consumed no path ends the iteration (no `?`/None after the first read); parse consumes all tokens [E-PATH]", r6_1, floor=2)
     ctx.run_rule("R6.2", "no character count is used as a str byte offset in src/parsers [E-UNIT, crate-wide dataflow with summaries]", r6_2, floor=1)
@@ -559,5 +587,6 @@ def run(ctx):
     ctx.run_rule("R6.11", "total parsing: no unwrap/expect on a fallible text conversion in parsers / expectation / rules / config (shared with C07 R7.5) [E-SITE]", c07.total_parsing_rules, floor=5)
     ctx.run_rule("R6.12", "fence info string: configuration = from the first `{` on, language = what precedes it; no other split [E-TABLE of accepted forms]", r6_12, floor=3)
     ctx.run_rule("R6.13", "parser state hygiene: every Ok path of LineParser::end_testcase flushes the state or resets the parsed exit code (shared with C07 R7.6) [E-PATH must-pass]", c07.parser_state_rules, floor=2)
+    ctx.run_rule("R6.14", "title: every line appended to the pending title paragraph is committed (set_testcase_title(join)) before the next token is read [E-PATH must-pass]", r6_14, floor=3)
     ctx.run_rule("R6.9", "closing-fence predicate is a prefix test against the opener's fence (equality would reject longer closing fences) [E-TABLE of accepted forms]", r6_9, floor=3)
     ctx.run_rule("R6.8", "read_file normalises CRLF through replace_crlf before parsing [E-FLOW]", r6_8, floor=1)
